@@ -378,6 +378,32 @@ func TestC17_LongForm(t *testing.T) {
 			st.Label("process-respelled")
 		}
 
+		// a result handed out stays what it was while the same handler and VDR resolve another DID
+		{
+			marker := docdid.Service{ID: "held", Type: "Other", ServiceEndpoint: endpoint.NewDIDCommV1Endpoint("https://held.example/" + suffix[:8])}
+			res2, err := v.Create(&docdid.Doc{Service: []docdid.Service{marker}}, opts...)
+			if err != nil {
+				t.Fatalf("C17 VDR.Create(second document): %v", err)
+			}
+			did2 := res2.DIDDocument.ID
+			rr2, err := h.ResolveDocument(did2)
+			if err != nil || rr2.Document.ID() != did2 {
+				t.Fatalf("C17 second DID does not resolve: %v", err)
+			}
+			if _, err := v.Read(did2); err != nil {
+				t.Fatalf("C17 VDR.Read(second DID): %v", err)
+			}
+			if after, _ := jsonRoundTrip(rr); refJCS(after) != refJCS(rt) {
+				t.Fatalf("C17 a resolution result changed after the same handler resolved another DID\n before %s\n after  %s", refJCS(rt), refJCS(after))
+			}
+			if after, _ := json.Marshal(read.DIDDocument); string(after) != string(readJSON) {
+				t.Fatalf("C17 a document returned by VDR.Read changed after the same VDR read another DID\n before %s\n after  %s", readJSON, after)
+			}
+			if len(d.keys) == 0 {
+				st.Label("held-result-without-keys")
+			}
+		}
+
 		mustReject := func(what, bad string) {
 			if bad == did {
 				return
@@ -460,6 +486,19 @@ func TestC17_LongForm(t *testing.T) {
 			"empty state":    "",
 		} {
 			mustReject("initial state re-encoded ("+name+")", ns+":"+suffix+":"+enc)
+		}
+		// the suffix segment with something in front of, behind or inside the right suffix, or edited in any small way. (Further
+		// colon-separated segments between namespace and suffix are a different matter: "did:ion:x:<suffix>:<state>" begins
+		// with the namespace and a colon and ends with suffix and state, which is all the property asks for.)
+		for _, bs := range []string{"x" + suffix, suffix + "x", "Ei" + suffix, "label-" + suffix, suffix + suffix, suffix[:len(suffix)/2] + ":" + suffix[len(suffix)/2:], suffix + ":"} {
+			mustReject("DID whose suffix segment is "+bs, ns+":"+bs+":"+state)
+		}
+		for i := 0; i < 4; i++ {
+			es, how := editString(t, suffix)
+			if strings.ContainsAny(es, " \n\t") {
+				continue
+			}
+			mustReject("DID whose suffix was edited ("+how+")", ns+":"+es+":"+state)
 		}
 		// short form, other suffix, other request's state
 		mustReject("short-form DID", ns+":"+suffix)
